@@ -217,7 +217,9 @@ func c14Run(sc *C14Scenario) (v *nodeViolation, flags map[string]bool) {
 			select {
 			case td := <-sn.node.unconfTxChannel.Channel:
 				sn.step++
-				if err := sn.node.processUnconfirmedTx(sn.ctx, td); err != nil {
+				var err error
+				guard("processUnconfirmedTx", func() { err = sn.node.processUnconfirmedTx(sn.ctx, td) })
+				if err != nil {
 					return &nodeViolation{"C14/tx-thread-exit", err.Error()}, flags
 				}
 				if i, ok := idOf[*td.Msg.TxHash()]; ok {
